@@ -1,6 +1,9 @@
 (** C30 — property theorems only (about the model of ci/ci/github.py WITH fixes/C30.diff; tied to the real PR /
     WatchedBranch objects by the step-by-step correspondence of harness/props/C30.py). *)
 From HailV Require Import Common.Prelude CI.Model CI.Lemmas1 CI.Lemmas2 CI.Lemmas3.
+From HailV Require Import CI.Guard.
+From HailV Require CI.GuardLemmas CI.GuardTie.
+From HailG Require C30.GuardGen.
 
 (** For EVERY history of pushes, reviews, label changes, status reports, batch completions, target-branch moves and CI
     actions (refreshes that may fail half-way, batch updates, heal+merge passes), every merge CI performs satisfies
@@ -32,3 +35,81 @@ Theorem C30_unfixed_refuted :
   exists m, In m (merges (run_unfixed unfixed_witness)) /\ m_src m = 2 /\ m_rv_for m = 1 /\ ~ merge_ok m.
 Proof. exact unfixed_refuted. Qed.
 Print Assumptions C30_unfixed_refuted.
+
+(** ------------------------------------------------------------------------------------------------------------------
+    The re-entrancy guard of WatchedBranch._update (CI/Guard.v).  The theorems above treat _update_github, _update_batch and
+    _heal(+try_to_merge) as atomic events; that is sound only if at most one coroutine is inside the body of `_update` at a
+    time.  This used to be an assumption; it is now a theorem about the control skeleton TRANSLATED from the source. *)
+
+(** The skeletons of `_update`, `notify_github_changed`, `notify_batch_changed`, `update` and the initial flag values, as
+    translated from ci/ci/github.py on this run, are the ones the theorems below are about. *)
+Theorem C30_guard_skeleton_is_source :
+  C30.GuardGen.update_body = update_body /\
+  C30.GuardGen.prefix_notify_github_changed = prefix NGithub /\
+  C30.GuardGen.prefix_notify_batch_changed = prefix NBatch /\
+  C30.GuardGen.prefix_update = prefix NAll /\
+  C30.GuardGen.init_flags = s_fl sys0.
+Proof. exact GuardTie.generated_is_hand. Qed.
+Print Assumptions C30_guard_skeleton_is_source.
+
+(** MUTUAL EXCLUSION.  For EVERY schedule - any number of notification tasks created at any time, interleaved in any order at
+    the await points, sub-operations that suspend any number of times, set any `*_changed` flag, return or raise - at most one
+    task is inside the body of `_update`, and `updating` is True exactly when one is. *)
+Theorem C30_guard_mutual_exclusion : forall (es : list sev),
+  n_in_body (srun es) <= 1 /\ n_in_body (srun es) = (if f_upd (s_fl (srun es)) then 1 else 0).
+Proof. intros es. split; [apply GuardLemmas.guard_mutex | apply GuardLemmas.guard_flag_exact]. Qed.
+Print Assumptions C30_guard_mutual_exclusion.
+
+(** NO LOST WAKE-UP, state form.  Unless an exception has escaped from `_update` since a task last entered it (or nothing ever
+    ran), a `*_changed` flag that is set has a server: a task inside the update loop (which re-tests the flags before leaving,
+    see the next theorems) or a notification task that has not started. *)
+Theorem C30_guard_set_flag_has_server : forall (es : list sev),
+  s_dropped (srun es) = false -> changed_clear (s_fl (srun es)) = false ->
+  existsb in_call (s_tasks (srun es)) = true \/ existsb is_fresh (s_tasks (srun es)) = true.
+Proof. exact GuardLemmas.guard_set_flag_has_server. Qed.
+Print Assumptions C30_guard_set_flag_has_server.
+
+(** NO LOST WAKE-UP, history form.  When nothing is running or waiting to start (and no exception escaped), every flag is False
+    and every write of True to a `*_changed` flag - by a notification, including one that arrived while an update was running
+    and returned at once, by a sub-operation, by the constructor - is followed in the log by the loop clearing that flag, which
+    it does only to call the corresponding sub-operation in the same atomic segment. *)
+Theorem C30_guard_no_lost_wakeup : forall (es : list sev),
+  s_dropped (srun es) = false -> quiescent (srun es) = true ->
+  changed_clear (s_fl (srun es)) = true /\
+  forall f l1 e l2, f <> FUpdating -> s_log (srun es) = l1 ++ e :: l2 -> sets_true f e -> In (LSet f false) l2.
+Proof. exact GuardLemmas.guard_no_lost_wakeup. Qed.
+Print Assumptions C30_guard_no_lost_wakeup.
+
+(** ... and [s_dropped] is raised only by an exception escaping from `_update`: in a schedule without one, it is False as soon
+    as any task has run. *)
+Theorem C30_guard_dropped_only_by_exception : forall (es : list sev),
+  forallb (fun e => negb (GuardLemmas.is_raise e)) es = true ->
+  existsb GuardLemmas.started (s_tasks (srun es)) = true -> s_dropped (srun es) = false.
+Proof. exact GuardLemmas.dropped_only_by_exception. Qed.
+Print Assumptions C30_guard_dropped_only_by_exception.
+
+(** PROGRESS ("eventually").  From any reachable state, the task inside `_update` - once its sub-operations return normally and
+    set no further flag - leaves `_update` within seven segments, whatever the opaque condition evaluates to, with every flag
+    consumed and `updating` False. *)
+Theorem C30_guard_progress : forall (es : list sev) i c k o1 o2 o3 o4 o5 o6 o7,
+  nth_error (s_tasks (srun es)) i = Some (TCall c k) ->
+  s_fl (srun (es ++ GuardLemmas.quiet i [o1; o2; o3; o4; o5; o6; o7])) = mkF false false false false /\
+  nth_error (s_tasks (srun (es ++ GuardLemmas.quiet i [o1; o2; o3; o4; o5; o6; o7]))) i = Some TDone.
+Proof. exact GuardLemmas.guard_progress. Qed.
+Print Assumptions C30_guard_progress.
+
+(** The hypotheses are satisfiable (three overlapping notifications, one of which returns at once), and the interpreter tells
+    the guard from its mis-placement inside the try block (early return through `finally` releases a flag it never took). *)
+Theorem C30_guard_example :
+  s_dropped (srun GuardLemmas.example_schedule) = false /\ quiescent (srun GuardLemmas.example_schedule) = true /\
+  map view_task (s_tasks (srun GuardLemmas.example_schedule)) = [VDone; VDone; VDone] /\
+  length (s_log (srun GuardLemmas.example_schedule)) = 16.
+Proof. exact GuardLemmas.example_ok. Qed.
+Print Assumptions C30_guard_example.
+
+Theorem C30_guard_misplaced_check_releases_flag :
+  let g := seg_run FUEL false MNormal [KSeq (prefix NBatch ++ GuardLemmas.update_body_check_inside_try)] (mkF true false false false) [] 0 in
+  g_out g = ODone false /\ f_upd (g_fl g) = false /\
+  f_upd (g_fl (start NBatch (mkF true false false false) false)) = true.
+Proof. exact GuardLemmas.misplaced_check_releases_flag. Qed.
+Print Assumptions C30_guard_misplaced_check_releases_flag.
